@@ -115,7 +115,7 @@ def cells_of(runs):
 
 def coq_cells(cs):
     """list of (char, eff-tuple) -> Coq list cell literal"""
-    return coq_list(["(%d, S %d %d %d %d %d %d %d %d)" % ((ord(ch),) + tuple(st)) for ch, st in cs])
+    return coq_list(["(%d, Sg %d %d %d %d %d %d %d %d)" % ((ord(ch),) + tuple(st)) for ch, st in cs])
 
 
 EXN = {IndexError: "IndexError", ValueError: "ValueError", TypeError: "TypeError", KeyError: "KeyError",
